@@ -355,7 +355,18 @@ func cmdCheck(args []string) int {
 			exit = 2
 		}
 		confirmed := 0
+		attempts := 0
 		for vi, v := range newViol {
+			// replays are expensive (a `go test` each, repeated for schedule-dependent outcomes): per
+			// lemma at most two confirmed and six attempted; the remaining violating paths are counted,
+			// not replayed
+			if !*noReplay && (confirmed >= 2 || attempts >= 6) {
+				if confirmed == 0 && exit == 0 {
+					exit = 2
+				}
+				continue
+			}
+			attempts++
 			dir := filepath.Join(verifDir, "replays", prop, fmt.Sprintf("%s_%d", strings.ReplaceAll(l.ID, ".", "_"), vi))
 			if err := writeReplayBundle(dir, l, v); err != nil {
 				notes = append(notes, l.ID+": cannot write replay bundle: "+err.Error())
